@@ -451,8 +451,10 @@ func (s *Stream) skipValue(depth int64) error {
 				return err
 			}
 			return nil
+		default:
+			s.cursor = cursor
+			return errors.ErrInvalidBeginningOfValue(char(p, cursor), s.totalOffset())
 		}
-		cursor++
 	}
 }
 
